@@ -320,6 +320,11 @@ impl Node {
         for item in self.iter_children() {
             if let Some(node) = item.as_node() {
                 if let Some(include) = typed::Include::cast(item) {
+                    // a statement without a path has been reported by the parser
+                    // and cannot be resolved.
+                    if include.find_token(Kind::Path).is_none() {
+                        continue;
+                    }
                     collect.push(IncludeStatement {
                         stmt: include,
                         scope: self.kind,
